@@ -23,6 +23,7 @@ from hypothesis import strategies as st
 
 from vlib import gen
 from vlib.build import build_obs
+from vlib import findings
 from vlib.core import Sub, Violation, Skip, require
 from vlib.refobs import RefObs, combine, cmp_obs
 
@@ -44,19 +45,22 @@ ASSUMPTIONS = ['errors (dvalue) of data and priors are taken from pyerrors as pr
                'estimated correlation: Pearson correlation on the common configurations when every data point lives on '
                'one chain (statement of C06), otherwise pyerrors.covariance(correlation=True) is trusted (C06 judges it)',
                'tolerances: fluctuations / gradients 1e-9 relative to the summed term magnitude (1e-6 with num_grad); '
-               'values 1e-7 sigma_p (Levenberg-Marquardt, rounding level), 1e-3 sigma_p (migrad: EDM < 0.002*tol*0.5 = 1e-7 '
-               'means |dp| < 3.2e-4 sigma_p), 1e-4 sigma_p (Nelder-Mead, Powell: chisquare is resolved to 1e-16 relative, '
-               'i.e. dp ~ 1e-7 sigma_p, plus the 1e-12 stopping tolerances); reported chisquare equals the weighted residual '
-               'norm at the returned parameters to 1e-9; p-values 1e-12 absolute',
+               'values, in units of the GLS parameter error sigma_p = sqrt(diag (A^T W A + P)^-1): Levenberg-Marquardt '
+               '1e-6*(1+sqrt(chisquare)) (MINPACK stops on ftol=1e-15, i.e. (dp/sigma_p)^2/chisquare < 1e-15, dp < 3.2e-8 '
+               'sqrt(chisquare) sigma_p, plus the rounding of its forward-difference Jacobian; measured maximum over 500 fits '
+               '1.4e-7*(1+sqrt(chisquare))); migrad 2e-3 (stopping rule EDM < 0.002*tol*errordef = 1e-7 means dp < 3.2e-4 sigma_p '
+               'with an EDM that is itself an estimate; measured maximum 3.7e-4); Nelder-Mead and Powell 1e-4 (chisquare is resolved '
+               'to 1e-16 relative, dp ~ 1e-8 sqrt(chisquare) sigma_p; measured maximum 3.3e-7). Reported chisquare equals the '
+               'weighted residual norm at the returned parameters to 1e-9; p-values 1e-12 absolute',
                'scipy.stats distributions are trusted']
 
 BASIS1 = ['one', 'x', 'x2', 'x3', 'sin', 'exp']
 BASIS2 = ['one', 'x', 'y', 'xy', 'x2', 'sin', 'y2', 'exp']
-BASIS_T = ['one', 'x', 'exp', 'sin']
+BASIS_T = ['one', 'x', 'exq', 'sin']      # integer abscissae 0..12 (Corr.fit): exp(-x/4) instead of exp(-x)
 KEYS = ['a', 'b', 'c', 'B', 'a10', 'a2', 'Z', 'key_1']
 METHOD_NAME = {'LM': 'Levenberg-Marquardt', 'migrad': 'migrad', 'Nelder-Mead': 'Nelder-Mead', 'Powell': 'Powell'}
 # value tolerance in units of the GLS parameter error, see ASSUMPTIONS
-VTOL = {'LM': 1e-7, 'migrad': 1e-3, 'Nelder-Mead': 1e-4, 'Powell': 1e-4}
+VTOL = {'LM': 1e-6, 'migrad': 2e-3, 'Nelder-Mead': 1e-4, 'Powell': 1e-4}
 COND_MAX = 1e6
 
 
@@ -78,6 +82,8 @@ def phi_num(name, pt):
         return math.sin(x)
     if name == 'exp':
         return math.exp(-x)
+    if name == 'exq':
+        return math.exp(-0.25 * x)
     if name == 'y':
         return y
     if name == 'xy':
@@ -113,6 +119,8 @@ def make_func(terms, xdim):
                 ph = anp.sin(x1)
             elif name == 'exp':
                 ph = anp.exp(-x1)
+            elif name == 'exq':
+                ph = anp.exp(-0.25 * x1)
             elif name == 'y':
                 ph = x2
             elif name == 'xy':
@@ -169,10 +177,54 @@ def prior_item(draw, k, tier):
     if kind == 'str':
         it['errform'] = draw(st.sampled_from(['int', 'int', 'dot']))
     else:
-        it['obs'] = draw(gen.obs_spec(ens_max=1, rep_max=2, nmin=6, nmax=20, with_cov=False,
+        it['obs'] = draw(gen.obs_spec(ens_max=1, rep_max=1, nmin=6, nmax=20, with_cov=False,
                                       data_kinds=('white', 'ar1', 'count'), sigma=gen.fl(0.2, 1.0)))
         it['S'] = draw(st.sampled_from([2.0, 2.0, 1.0, 0]))
     return it
+
+
+@st.composite
+def family_specs(draw, n, lmin, lmax, ens_max, rep_max, with_cov):
+    """n observables on one family of chains (1..ens_max ensembles x 1..rep_max replicas): every observable has the
+    full configuration list of a chain or the list with a few configurations removed, so that the estimated
+    correlation matrix is positive definite in most cases (needed by correlated fits)."""
+    enss = draw(gen.ensemble_names(1, ens_max))
+    base = []
+    for e in enss:
+        reps = draw(gen.replica_names(e, 1, rep_max))
+        g = draw(st.sampled_from([1, 1, 2, 3]))
+        kinds = ('contig', 'strided', 'irregular') if len(reps) == 1 else ('contig',)
+        for r in reps:
+            base.append((e, r, draw(gen.idl_list(lmin, lmax, kinds=kinds, gap=g))))
+    pool = draw(gen.cov_pool(2)) if with_cov else {}
+    out = []
+    for i in range(n):
+        use = list(enss)
+        if len(enss) > 1 and draw(st.integers(0, 2)) == 0:
+            use = [draw(st.sampled_from(enss))]
+        chains = []
+        for e, r, il in base:
+            if e not in use:
+                continue
+            il = list(il)
+            if draw(st.integers(0, 4)) == 0:
+                for pos in sorted(draw(st.lists(st.integers(1, len(il) - 2), min_size=1, max_size=3, unique=True)), reverse=True):
+                    del il[pos]
+            chains.append({'name': r, 'idl': il, 'form': draw(gen.idl_form()),
+                           'data': draw(gen.recipe(len(il), kinds=('white', 'ar1', 'count'), sigma=gen.fl(0.2, 1.0)))})
+        out.append({'chains': chains, 'cov': draw(gen.cov_part(pool, 0.4)) if pool else []})
+    return out
+
+
+def exclude_vanishing_solution(spec):
+    """Known finding F-C07-1: a correlated fit starts its second minimisation at the solution of the uncorrelated
+    fit; when that solution vanishes at rounding level (all true parameters zero and data exactly on the model),
+    Levenberg-Marquardt cannot leave it (MINPACK's first step bound is proportional to |x|) and the start point is
+    returned as result.  While the finding is open, correlated fits are generated with at least one parameter of
+    size >= 0.05 (the highest index always enters a data set); the replay in known/ probes the excluded class."""
+    if spec['correlated'] and findings.is_open('F-C07-1') and max(abs(v) for v in spec['ptrue']) < 0.05:
+        spec['ptrue'][-1] = 0.5
+        spec['excluded'] = ['F-C07-1']
 
 
 @st.composite
@@ -229,10 +281,10 @@ def fit_case(draw, tier, methods=('LM',), num_grad_ok=True, force_perm=False):
         sets[draw(st.integers(0, nsets - 1))]['n'] += 1
     if sum(s['n'] for s in sets) - nparm + npri == 0 and draw(st.integers(0, 3)) != 0:
         sets[0]['n'] += 1
-    for attempt in range(4):
+    for attempt in range(6):
         for s in sets:
             s['x'] = draw(abscissae(s['n'], xdim))
-        if _cond_unit(sets, nparm) < 1e4:
+        if _cond_unit(sets, nparm) < 1e3:
             break
     ntot = sum(s['n'] for s in sets)
 
@@ -245,12 +297,20 @@ def fit_case(draw, tier, methods=('LM',), num_grad_ok=True, force_perm=False):
     else:
         lmin, lmax = 8, nmax
     if single_chain:
-        ys = draw(gen.related_obs_specs(ntot, ens_max=1, rep_max=1, lmin=lmin, lmax=lmax, with_cov=False,
-                                        sigma=gen.fl(0.2, 1.0), p_same=0.7))
+        ys = draw(family_specs(ntot, lmin, lmax, 1, 1, False))
+    elif correlated == 'estimated' and draw(st.integers(0, 9)) < 7:
+        ys = draw(family_specs(ntot, lmin, lmax, 2, 2, draw(st.booleans())))
     else:
         ys = draw(gen.related_obs_specs(ntot, ens_max=2, rep_max=2, lmin=lmin, lmax=lmax,
                                         with_cov=draw(st.booleans()), sigma=gen.fl(0.2, 1.0),
-                                        p_same=0.8 if correlated == 'estimated' else 0.35))
+                                        p_same=0.9 if correlated == 'estimated' else 0.35))
+    # Hypothesis likes to repeat small seeds; identical recipes would make data points exactly equal (singular correlation)
+    cnt = 0
+    for sp in ys:
+        for ch in sp['chains']:
+            if 'seed' in ch['data']:
+                cnt += 1
+                ch['data']['seed'] = (ch['data']['seed'] * 131 + cnt) % (2 ** 31 - 1)
     mix = []
     if ntot >= 2:
         for _ in range(draw(st.sampled_from([0, 0, 1, 2, 3]))):
@@ -258,7 +318,7 @@ def fit_case(draw, tier, methods=('LM',), num_grad_ok=True, force_perm=False):
             j = draw(st.integers(0, ntot - 2))
             if j >= i:
                 j += 1
-            mix.append([i, j, draw(gen.fl(-0.8, 0.8))])
+            mix.append([i, j, draw(st.sampled_from([-0.8, -0.5, -0.2, 0.1, 0.3, 0.6, 0.8]))])
     spec = {
         'xdim': xdim, 'nparm': nparm, 'sets': sets, 'y': ys, 'mix': mix,
         'S': [draw(st.sampled_from([2.0, 2.0, 2.0, 1.0, 3.0, 0])) for _ in range(ntot)],
@@ -276,9 +336,12 @@ def fit_case(draw, tier, methods=('LM',), num_grad_ok=True, force_perm=False):
         'order_y': draw(st.permutations(list(range(nsets)))),
         'order_f': draw(st.permutations(list(range(nsets)))),
         'expected_chisquare': correlated is None and priors is None and draw(st.booleans()),
-        'guess': draw(st.one_of(st.none(), st.none(), st.lists(gen.fl(-3.0, 3.0), min_size=nparm, max_size=nparm))),
+        # initial guesses on a grid of tenths: start values like 1e-20 make MINPACK stop at once (step bound
+        # proportional to |x0|); that is about the minimiser's start-up, not about this property
+        'guess': draw(st.one_of(st.none(), st.none(), st.lists(st.integers(-30, 30).map(lambda i: i / 10.0), min_size=nparm, max_size=nparm))),
         'method_explicit': draw(st.booleans()),
     }
+    exclude_vanishing_solution(spec)
     if correlated == 'supplied':
         spec['T'] = [[(draw(gen.fl(0.5, 2.0)) if i == j else (draw(gen.fl(-0.5, 0.5)) if j < i else 0.0))
                       for j in range(ntot)] for i in range(ntot)]
@@ -322,6 +385,16 @@ def prior_string(v, dp, form):
         ndec = len(vt.split('.')[1]) if '.' in vt else 0
         err = int(et) * 10.0 ** (-ndec)
     return vt + '(' + et + ')', val, err
+
+
+def check_invertible(corr, kind):
+    """The estimated correlation matrix of generated data need not be positive definite (partly overlapping
+    configuration lists, fewer samples than points); what a correlated fit does then is outside the property."""
+    if not np.all(np.isfinite(corr)):
+        raise Skip('estimated correlation matrix not finite (%s)' % kind)
+    ev = np.linalg.eigvalsh((corr + corr.T) / 2)
+    if not (ev[0] > 1e-7 and ev[-1] / ev[0] < 1e8):
+        raise Skip('estimated correlation matrix not safely invertible (%s)' % kind)
 
 
 class Case:
@@ -377,9 +450,7 @@ class Case:
             self.W = L.T @ L
         elif spec['correlated'] == 'estimated':
             self.corr, self.corr_kind = self.reference_correlation()
-            ev = np.linalg.eigvalsh(self.corr)
-            if not (ev[0] > 1e-7 and ev[-1] / ev[0] < 1e8):
-                raise Skip('estimated correlation matrix not safely invertible')
+            check_invertible(self.corr, self.corr_kind)
             cov = np.diag(self.dy) @ self.corr @ np.diag(self.dy)
             self.W = np.linalg.inv(cov)
         else:
@@ -480,13 +551,14 @@ def call_fit(case, variant=None):
         else:
             order = list(pv['priors']) if (pv and pv.get('priors') is not None) else list(range(len(items)))
             parg = {items[i]['k']: items[i]['arg'] for i in order}
+    ref = reference(case, sigma, Wcall)          # raises Skip for ill-conditioned normal equations (before fitting)
     try:
         res = pe.least_squares(x, y, f, priors=parg, silent=True, **kw)
     except Exception as e:
         if 'did not converge' in str(e):
             raise Skip('minimiser did not converge (%s)' % spec['method'])
         raise
-    return res, sigma, Wcall
+    return res, sigma, Wcall, ref
 
 
 # ---------------------------------------------------------------------------------------------
@@ -499,12 +571,9 @@ def nan_close(a, b, atol):
     return abs(a - b) <= atol
 
 
-def judge(case, res, sigma, Wcall, what=''):
-    from scipy import stats
-    pe = case.pe
-    spec = case.spec
-    pre = (what + ': ') if what else ''
-    n, P = case.ntot, case.nparm
+def reference(case, sigma, Wcall):
+    """Closed-form GLS solution and its sensitivities for the data in call order."""
+    P = case.nparm
     A = case.A[sigma]
     yv = case.yv[sigma]
     npri = len(case.priors)
@@ -526,12 +595,38 @@ def judge(case, res, sigma, Wcall, what=''):
     Mp = Hi @ Psel                   # d p / d pi
     phat = My @ yv + Mp @ pi
     sig = np.sqrt(np.diag(Hi))
+    r0 = yv - A @ phat
+    chi_min = float(r0 @ Wcall @ r0) + float(sum(((phat[it['k']] - it['v']) / it['dv']) ** 2 for it in case.priors))
+    return {'My': My, 'Mp': Mp, 'phat': phat, 'sig': sig, 'chi_min': chi_min}
+
+
+def value_tolerance(method, chi_min):
+    """Allowed distance between returned and exact minimum in units of the GLS parameter error (see ASSUMPTIONS).
+    Levenberg-Marquardt stops when the relative reduction of chisquare falls below ftol = 1e-15; near the minimum
+    chisquare(p) - chisquare_min = (dp/sigma_p)^2, hence dp < 3.2e-8 * sqrt(chisquare) sigma_p."""
+    vt = VTOL[method]
+    if method == 'LM':
+        vt = vt * (1.0 + math.sqrt(max(chi_min, 0.0)))
+    return vt
+
+
+def judge(case, res, sigma, Wcall, ref, what=''):
+    from scipy import stats
+    pe = case.pe
+    spec = case.spec
+    pre = (what + ': ') if what else ''
+    n, P = case.ntot, case.nparm
+    A = case.A[sigma]
+    yv = case.yv[sigma]
+    npri = len(case.priors)
+    My, Mp, phat, sig = ref['My'], ref['Mp'], ref['phat'], ref['sig']
+    case.scales = {}
 
     require(isinstance(res, pe.fits.Fit_result), pre + 'result is not a Fit_result', type(res).__name__)
     fp = res.fit_parameters
     require(len(fp) == P and len(res) == P, pre + 'number of fit parameters', len(fp), P)
     got = np.array([float(o.value) for o in fp])
-    vt = VTOL[spec['method']]
+    vt = value_tolerance(spec['method'], ref['chi_min'])
     for k in range(P):
         require(abs(got[k] - phat[k]) <= vt * sig[k] + 1e-10 * abs(phat[k]),
                 pre + 'central value of parameter %d is %r, GLS solution %r (difference %.3g sigma_p, allowed %.1g)'
@@ -551,10 +646,20 @@ def judge(case, res, sigma, Wcall, what=''):
             require(nm[0] not in names_seen, pre + 'two priors share one covariance input', nm[0])
             names_seen.add(nm[0])
             ops.append(RefObs(it['v'], {}, {}, {nm[0]: (np.array([[it['dv'] ** 2]]), np.array([[1.0]]))}))
+    dyc = case.dy[sigma]
     for k in range(P):
         coef = [float(v) for v in My[k]] + [float(v) for v in Mp[k]]
-        ref = combine(lambda v: 0.0, coef, ops, value=float(fp[k].value))
-        cmp_obs(ref, fp[k], pre + 'parameter %d' % k, rtol=tol, check_rv=False, atol_scale=tol)
+        rk = combine(lambda v: 0.0, coef, ops, value=float(fp[k].value))
+        # absolute part of the tolerance: relative to the largest sensitivity a parameter can have, |dp_k/dy_j| <= sigma_k/dy_j
+        # (leverage <= 1); the solve with the Hessian and numerical differentiation err relative to that scale,
+        # not relative to a coefficient that happens to vanish
+        bound = combine(lambda v: 0.0, [float(sig[k] / d) for d in dyc] + [float(sig[k] / it['dv']) for it in case.priors], ops, value=0.0)
+        for nme in rk.mag:
+            rk.mag[nme] = rk.mag[nme] + bound.mag.get(nme, 0.0)
+        for nme in rk.cgmag:
+            rk.cgmag[nme] = rk.cgmag[nme] + bound.cgmag.get(nme, 0.0)
+        cmp_obs(rk, fp[k], pre + 'parameter %d' % k, rtol=tol, check_rv=False, atol_scale=tol)
+        case.scales[k] = (dict(rk.mag), {_strip(c): v for c, v in rk.cgmag.items()})
 
     # chisquare = weighted residual norm at the returned parameters
     r = yv - A @ got
@@ -562,8 +667,7 @@ def judge(case, res, sigma, Wcall, what=''):
     chi = float(res.chisquare)
     require(abs(chi - chi_at) <= 1e-9 * (1.0 + chi_at),
             pre + 'chisquare %r is not the weighted residual norm at the returned parameters %r' % (chi, chi_at))
-    r0 = yv - A @ phat
-    chi_min = float(r0 @ Wcall @ r0) + float(sum(((phat[it['k']] - it['v']) / it['dv']) ** 2 for it in case.priors))
+    chi_min = ref['chi_min']
     require(abs(chi - chi_min) <= 1e-9 * (1.0 + chi_min) + 10 * P * vt ** 2,
             pre + 'chisquare %r, weighted residual norm at the GLS solution %r' % (chi, chi_min))
     dof = n - P + npri
@@ -644,6 +748,8 @@ def case_labels(case, extra=()):
         labs.add('zscale:%g' % spec['zscale'])
     if spec.get('guess') is not None:
         labs.add('initial_guess')
+    for fid in spec.get('excluded', []):
+        labs.add('excluded:' + fid)
     if any(S != 2.0 for S in spec['S']):
         labs.add('S_varied')
     nt = shared or bool(spec['priors']) or bool(spec['correlated']) or multi
@@ -652,8 +758,8 @@ def case_labels(case, extra=()):
 
 def gls_oracle(spec):
     case = Case(spec)
-    res, sigma, Wcall = call_fit(case)
-    extra = judge(case, res, sigma, Wcall)
+    res, sigma, Wcall, ref = call_fit(case)
+    extra = judge(case, res, sigma, Wcall, ref)
     nt, labs = case_labels(case, extra)
     return {'nt': nt, 'cls': labs}
 
@@ -665,23 +771,25 @@ def _strip(name):
     return name.split('_')[0] if name.startswith('#prior') else name
 
 
-def same_obs(a, b, what, tol):
-    """Two pyerrors observables agree (names of string priors carry a random suffix and are compared without it)."""
+def same_obs(a, b, what, tol, scales):
+    """Two pyerrors observables agree (names of string priors carry a random suffix and are compared without it);
+    absolute tolerance relative to the same magnitudes as in the comparison with the closed form."""
+    mag, cgmag = scales
     na = sorted(n for n in a.names if n not in a.covobs)
     nb = sorted(n for n in b.names if n not in b.covobs)
     require(na == nb, what + ': chains differ', na, nb)
     for n in na:
         require([int(c) for c in a.idl[n]] == [int(c) for c in b.idl[n]], what + ': configuration list of %s differs' % n)
         da, db = np.asarray(a.deltas[n], dtype=float), np.asarray(b.deltas[n], dtype=float)
-        sc = max(float(np.max(np.abs(da), initial=0.0)), float(np.max(np.abs(db), initial=0.0)))
-        require(bool(np.all(np.abs(da - db) <= tol * sc + 1e-300)),
-                what + ': fluctuations on %s differ by up to %.3g (relative to the largest)' % (n, float(np.max(np.abs(da - db))) / (sc + 1e-300)))
+        sc = mag.get(n, 0.0)
+        require(da.shape == db.shape and bool(np.all(np.abs(da - db) <= tol * sc + 1e-300)),
+                what + ': fluctuations on %s differ by up to %.3g (scale %.3g)' % (n, float(np.max(np.abs(da - db))), sc))
     ca = {_strip(k): v for k, v in a.covobs.items()}
     cb = {_strip(k): v for k, v in b.covobs.items()}
     require(sorted(ca) == sorted(cb), what + ': covariance inputs differ', sorted(ca), sorted(cb))
     for k in ca:
         ga, gb = np.asarray(ca[k].grad, dtype=float), np.asarray(cb[k].grad, dtype=float)
-        sc = max(float(np.max(np.abs(ga), initial=0.0)), float(np.max(np.abs(gb), initial=0.0)))
+        sc = cgmag.get(k, 0.0)
         require(ga.shape == gb.shape and bool(np.all(np.abs(ga - gb) <= tol * sc + 1e-300)), what + ': gradient w.r.t. %s differs' % k,
                 ga.ravel().tolist(), gb.ravel().tolist())
 
@@ -692,23 +800,20 @@ def perm_case(tier):
 
 def perm_oracle(spec):
     case = Case(spec)
-    res1, s1, W1 = call_fit(case)
-    e1 = judge(case, res1, s1, W1, 'original order')
+    res1, s1, W1, ref1 = call_fit(case)
+    e1 = judge(case, res1, s1, W1, ref1, 'original order')
     case2 = Case(spec)
-    res2, s2, W2 = call_fit(case2, 'perm')
-    judge(case2, res2, s2, W2, 'permuted order')
-    vt = VTOL[spec['method']]
+    res2, s2, W2, ref2 = call_fit(case2, 'perm')
+    judge(case2, res2, s2, W2, ref2, 'permuted order')
+    vt = value_tolerance(spec['method'], ref1['chi_min'])
     # direct comparison: same central values (within twice the minimiser accuracy), same fluctuations, same statistics
-    H = case.A.T @ case.W @ case.A
-    for it in case.priors:
-        H[it['k'], it['k']] += 1.0 / it['dv'] ** 2
-    sig = np.sqrt(np.diag(np.linalg.inv(H)))
+    sig = ref1['sig']
     tol = 1e-6 if spec['num_grad'] else 1e-9
     for k in range(case.nparm):
         a, b = res1[k], res2[k]
         require(abs(a.value - b.value) <= 2 * vt * sig[k] + 1e-10 * abs(a.value),
                 'parameter %d changes with the order of points / keys: %r vs %r' % (k, a.value, b.value))
-        same_obs(a, b, 'parameter %d, original vs permuted order' % k, 10 * tol)
+        same_obs(a, b, 'parameter %d, original vs permuted order' % k, 2 * tol, case.scales[k])
     require(abs(res1.chisquare - res2.chisquare) <= 1e-9 * (1 + abs(res1.chisquare)) + 20 * case.nparm * vt ** 2,
             'chisquare changes with the order of points / keys', res1.chisquare, res2.chisquare)
     require(res1.dof == res2.dof, 'dof changes with the order of points / keys', res1.dof, res2.dof)
@@ -763,10 +868,12 @@ def corrfit_case(draw, tier):
             slices.append([draw(gen.recipe(len(c['idl']), kinds=('white', 'ar1', 'count'), sigma=gen.fl(0.2, 1.0)))
                            for c in tmpl['chains']])
     pad = draw(st.sampled_from([[0, 0], [0, 0], [1, 0], [0, 2], [1, 1]]))
-    return {'T': T, 'nparm': nparm, 'terms': terms, 'template': tmpl, 'slices': slices, 'range': [a, b], 'how': how,
+    spec = {'T': T, 'nparm': nparm, 'terms': terms, 'template': tmpl, 'slices': slices, 'range': [a, b], 'how': how,
             'pad': pad, 'ptrue': [draw(gen.fl(-2.0, 2.0)) for _ in range(nparm)], 'z': [draw(gen.fl(-2.0, 2.0)) for _ in range(T)],
             'correlated': draw(st.sampled_from([False, False, True])),
             'method': draw(st.sampled_from(['LM', 'LM', 'LM', 'migrad']))}
+    exclude_vanishing_solution(spec)
+    return spec
 
 
 def corrfit_oracle(spec):
@@ -807,13 +914,6 @@ def corrfit_oracle(spec):
     if spec['how'] == 'all':
         a, b = 0, Tfull - 1
     want_t = [t + pad[0] for t in range(T) if content[t] is not None and a <= t + pad[0] <= b]
-    f = make_func(terms, 1)
-    try:
-        res = corr.fit(f, silent=True, **kw)
-    except Exception as e:
-        if 'did not converge' in str(e):
-            raise Skip('minimiser did not converge (%s)' % spec['method'])
-        raise
     # closed-form solution on exactly the defined timeslices of the inclusive range
     fake = {'xdim': 1, 'nparm': nparm, 'sets': [{'key': '', 'terms': spec['terms'], 'n': len(want_t), 'x': [[float(t)] for t in want_t]}],
             'priors': None, 'correlated': 'estimated' if spec['correlated'] else None, 'method': spec['method'], 'num_grad': False,
@@ -833,33 +933,41 @@ def corrfit_oracle(spec):
     case.corr_kind = None
     if spec['correlated']:
         case.corr, case.corr_kind = case.reference_correlation()
-        ev = np.linalg.eigvalsh(case.corr)
-        if not (ev[0] > 1e-7 and ev[-1] / ev[0] < 1e8):
-            raise Skip('estimated correlation matrix not safely invertible')
+        check_invertible(case.corr, case.corr_kind)
         case.W = np.linalg.inv(np.diag(case.dy) @ case.corr @ np.diag(case.dy))
     else:
         case.W = np.diag(1.0 / case.dy ** 2)
     n = case.ntot
+    sigma = list(range(n))
+    ref = reference(case, sigma, case.W)
+    f = make_func(terms, 1)
+    try:
+        res = corr.fit(f, silent=True, **kw)
+    except Exception as e:
+        if 'did not converge' in str(e):
+            raise Skip('minimiser did not converge (%s)' % spec['method'])
+        raise
     require(res.dof == n - nparm, 'Corr.fit used %d points, the inclusive range [%d, %d] contains %d defined timeslices'
             % (res.dof + nparm, a, b, n))
-    sigma = list(range(n))
-    judge(case, res, sigma, case.W, 'Corr.fit')
+    judge(case, res, sigma, case.W, ref, 'Corr.fit')
     labs = ['range:' + spec['how'], 'method:' + spec['method'], 'corr:%s' % spec['correlated'], 'pad:%s' % (pad != [0, 0])]
     skipped_inside = any(content[t - pad[0]] is None for t in range(max(a, pad[0]), min(b, pad[0] + T - 1) + 1))
     if skipped_inside:
         labs.append('undefined_slice_in_range')
     if case.corr_kind:
         labs.append(case.corr_kind)
+    for fid in spec.get('excluded', []):
+        labs.append('excluded:' + fid)
     return {'nt': skipped_inside or spec['correlated'] or spec['how'] != 'all', 'cls': sorted(labs)}
 
 
 SUBS = [
-    Sub('gls', lambda tier: fit_case(tier), gls_oracle, {'quick': 120, 'thorough': 2500}, {'quick': 10, 'thorough': 16},
+    Sub('gls', lambda tier: fit_case(tier), gls_oracle, {'quick': 150, 'thorough': 2500}, {'quick': 10, 'thorough': 16},
         doc='Levenberg-Marquardt fits vs closed-form GLS: values, fluctuations, gradients, chisquare, dof, p-values', max_skip_frac=0.2),
-    Sub('methods', methods_case, gls_oracle, {'quick': 100, 'thorough': 2000}, {'quick': 3, 'thorough': 8},
+    Sub('methods', methods_case, gls_oracle, {'quick': 120, 'thorough': 2000}, {'quick': 3, 'thorough': 8},
         doc='migrad / Nelder-Mead / Powell vs closed-form GLS', max_skip_frac=0.2),
-    Sub('perm', perm_case, perm_oracle, {'quick': 80, 'thorough': 1500}, {'quick': 2, 'thorough': 6},
+    Sub('perm', perm_case, perm_oracle, {'quick': 100, 'thorough': 1500}, {'quick': 2, 'thorough': 6},
         doc='permutation of data points and of dictionary insertion orders', max_skip_frac=0.2),
-    Sub('corrfit', corrfit_case, corrfit_oracle, {'quick': 100, 'thorough': 1500}, {'quick': 1, 'thorough': 4},
-        doc='Corr.fit: inclusive range, undefined timeslices skipped, equals GLS on those timeslices', max_skip_frac=0.2),
+    Sub('corrfit', corrfit_case, corrfit_oracle, {'quick': 150, 'thorough': 1500}, {'quick': 1, 'thorough': 4},
+        doc='Corr.fit: inclusive range, undefined timeslices skipped, equals GLS on those timeslices', max_skip_frac=0.25),
 ]
